@@ -54,9 +54,13 @@ class Problem:
         for x in self.nums:
             self.decls.append(f"(declare-fun {x[1]} () {self.S})")
         self.funs = []
+        # functions with Boolean arguments only in about a third of the problems: printed models for them are a known finding
+        # (C03-bool-arg-uf-model), and a problem that declares them cannot tell other model defects apart
+        self.boolargs = self.uf and rng.random() < 0.35
         if self.uf:
-            self.funs = [("f", [self.S], self.S), ("g", [self.S, self.S], self.S), ("p", [self.S], "Bool"),
-                         ("h", ["Bool"], self.S), ("q", ["Bool", self.S], "Bool")]
+            self.funs = [("f", [self.S], self.S), ("g", [self.S, self.S], self.S), ("p", [self.S], "Bool")]
+            if self.boolargs:
+                self.funs += [("h", ["Bool"], self.S), ("q", ["Bool", self.S], "Bool")]
             for name, args, res in self.funs:
                 self.decls.append(f"(declare-fun {name} ({' '.join(args)}) {res})")
 
@@ -75,7 +79,7 @@ class Problem:
     def nterm(self, d=2):
         r = self.r
         c = r.random()
-        if self.uf and d > 0 and r.random() < getattr(self, 'pb', 0.08):
+        if self.boolargs and d > 0 and r.random() < getattr(self, 'pb', 0.08):
             return ("uf", "h", self.S, [self.barg()])
         if self.S == "U":
             if d == 0 or c < 0.4 or not self.uf:
@@ -115,7 +119,7 @@ class Problem:
     def atom(self):
         r = self.r
         c = r.random()
-        if self.uf and r.random() < getattr(self, 'pb', 0.06):
+        if self.boolargs and r.random() < getattr(self, 'pb', 0.06):
             return ("uf", "q", "Bool", [self.barg(), self.nterm(1)])
         if not self.nums or c < 0.25:
             return r.choice(self.bools)
